@@ -42,7 +42,9 @@ inductive Item (α : Type) where
   deriving Repr, DecidableEq
 
 inductive Res (α : Type) where
-  | ok (items : List (Item α))
+  /-- `rewrote`: the text was re-rendered (`(inner){a,b}`), which is what makes `new_pattern != pattern` in
+      `update_pattern_in_schema` — also when the new bounds happen to equal the old ones -/
+  | ok (items : List (Item α)) (rewrote : Bool)
   /-- `InternalError`: the rewritten text is not a valid regex -/
   | internalError
   deriving Repr, DecidableEq
@@ -65,20 +67,20 @@ def buildSize (rlo rhi : Nat) (lo hi : Option Nat) : Nat × Nat :=
   let b := match hi with | some h => if rhi == MAXREPEAT then h else min rhi h | none => rhi
   (a, b)
 
-/-- `_update_quantifier(op, value, …)` for one item; `none` = InternalError -/
-def updateItem (x : Item α) (lo hi : Option Nat) : Option (Item α) :=
+/-- `_update_quantifier(op, value, …)` for one item (and whether its text was re-rendered); `none` = InternalError -/
+def updateItem (x : Item α) (lo hi : Option Nat) : Option (Item α × Bool) :=
   match x with
   | .rep rlo rhi body =>
-    let (a, b) := buildSize rlo rhi lo hi
-    if a > b then some x else some (.rep a b body)
+    if (buildSize rlo rhi lo hi).1 > (buildSize rlo rhi lo hi).2 then some (x, false)
+    else some (.rep (buildSize rlo rhi lo hi).1 (buildSize rlo rhi lo hi).2 body, true)
   | .lit a | .cls a =>
-    if hi == some 0 then some x
+    if hi == some 0 then some (x, false)
     else
       let a' := match lo with | none => 1 | some l => max l 1
       match hi with
-      | none => some (.rep a' MAXREPEAT (.atom a))
-      | some h => if h < a' then none else some (.rep a' h (.atom a))
-  | _ => some x
+      | none => some (.rep a' MAXREPEAT (.atom a), true)
+      | some h => if h < a' then none else some (.rep a' h (.atom a), true)
+  | _ => some (x, false)
 
 /-- the inner loop of `find_valid_combination`: try `len, len+1, …` (`count` candidates), `k` = the search for the rest -/
 def tryLens (k : Nat → Option (List Nat)) (rem : Nat) : Nat → Nat → Option (List Nat)
@@ -96,30 +98,37 @@ def findComb : List (Nat × Nat) → Nat → Option (List Nat)
     let top := if mx == MAXREPEAT then rem else mx
     tryLens (findComb rest) rem mn (top + 1 - mn)
 
+def partMinOf (remMin mn mx : Nat) : Nat := if remMin > 0 then min mx (max mn remMin) else mn
+def partMaxOf (remMax mx : Nat) : Nat := if remMax < MAXREPEAT then min mx remMax else mx
+def nextMax (remMax partMax : Nat) : Nat := remMax - (if partMax != MAXREPEAT then partMax else 0)
+
 /-- the range branch of `_distribute_length_constraints` -/
 def distRange : List (Nat × Nat) → Nat → Nat → Option (List (Nat × Nat))
   | [], remMin, _ => if remMin > 0 then none else some []
   | (mn, mx) :: rest, remMin, remMax =>
-    let partMin := if remMin > 0 then min mx (max mn remMin) else mn
-    let partMax := if remMax < MAXREPEAT then min mx remMax else mx
-    if partMin > partMax then none
-    else match distRange rest (remMin - partMin) (remMax - (if partMax != MAXREPEAT then partMax else 0)) with
-      | some r => some ((partMin, partMax) :: r)
+    if partMinOf remMin mn mx > partMaxOf remMax mx then none
+    else match distRange rest (remMin - partMinOf remMin mn mx) (nextMax remMax (partMaxOf remMax mx)) with
+      | some r => some ((partMinOf remMin mn mx, partMaxOf remMax mx) :: r)
       | none => none
+
+/-- `min_length == max_length` (both present at this point) -/
+def isExact : Option Nat → Option Nat → Bool
+  | some a, some b => a == b
+  | _, _ => false
+
+/-- `remaining_max = max_length or MAXREPEAT` (as found) / `MAXREPEAT if max_length is None else max_length` (repaired) -/
+def remMaxOf (v : Variant) : Option Nat → Nat
+  | none => MAXREPEAT
+  | some h => if h == 0 && v == .asFound then MAXREPEAT else h
 
 /-- `_distribute_length_constraints(bounds, min_length, max_length)`.
     Defect site F36: `remaining_max = max_length or MAXREPEAT` reads a maximum of 0 as "none". -/
 def distribute (v : Variant) (bounds : List (Nat × Nat)) (lo hi : Option Nat) : Option (List (Nat × Nat)) :=
-  let exact := match lo, hi with | some a, some b => a == b | _, _ => false
-  if exact then
+  if isExact lo hi then
     match findComb bounds (lo.getD 0) with
     | some d => some (d.map fun l => (l, l))
     | none => none
-  else
-    let remMax := match hi with
-      | none => MAXREPEAT
-      | some h => if h == 0 && v == .asFound then MAXREPEAT else h
-    distRange bounds (lo.getD 0) remMax
+  else distRange bounds (lo.getD 0) (remMaxOf v hi)
 
 /-- rebuild the middle part: literals stay, the i-th repeat gets the i-th distributed bounds -/
 def rebuild : List (Item α) → List (Nat × Nat) → List (Item α)
@@ -137,54 +146,48 @@ def countLits : List (Item α) → Nat
   | .lit _ :: rest => 1 + countLits rest
   | _ :: rest => countLits rest
 
+/-- `length -= fixed_length; if length < 0: return pattern` — outer `none` = "return the pattern unchanged" -/
+def subLen (x : Option Nat) (fixed : Nat) : Option (Option Nat) :=
+  match x with
+  | none => some none
+  | some l => if l < fixed then none else some (some (l - fixed))
+
 /-- `_handle_anchored_pattern` on `first :: middle ++ [last]` -/
 def handleAnchored (v : Variant) (first : Item α) (middle : List (Item α)) (last : Item α) (lo hi : Option Nat) :
-    List (Item α) :=
-  let same := first :: middle ++ [last]
-  let fixed := countLits middle
-  match lo, hi with
-  | some l, _ => if l < fixed then same else go (some (l - fixed))
-  | none, _ => go none
-where
-  go (lo' : Option Nat) : List (Item α) :=
-    let same := first :: middle ++ [last]
-    let fixed := countLits middle
-    let hi'? : Option (Option Nat) := match hi with
-      | some h => if h < fixed then none else some (some (h - fixed))
-      | none => some none
-    match hi'? with
-    | none => same
-    | some hi' =>
-      let bounds := repBounds middle
-      if bounds.isEmpty then same
-      else match distribute v bounds lo' hi' with
-        | none => same
-        | some d => first :: rebuild middle d ++ [last]
+    List (Item α) × Bool :=
+  match subLen lo (countLits middle), subLen hi (countLits middle) with
+  | some lo', some hi' =>
+    if (repBounds middle).isEmpty then (first :: middle ++ [last], false)
+    else match distribute v (repBounds middle) lo' hi' with
+      | none => (first :: middle ++ [last], false)
+      | some d => (first :: rebuild middle d ++ [last], true)
+  | _, _ => (first :: middle ++ [last], false)
 
 /-- `_handle_parsed_pattern` -/
 def handleParsed (v : Variant) (items : List (Item α)) (lo hi : Option Nat) : Res α :=
   match items with
-  | [x] => match updateItem x lo hi with | some y => .ok [y] | none => .internalError
+  | [x] => match updateItem x lo hi with | some (y, w) => .ok [y] w | none => .internalError
   | [a, x] =>
-    if a.isAt then match updateItem x lo hi with | some y => .ok [a, y] | none => .internalError
-    else if x.isAt then match updateItem a lo hi with | some y => .ok [y, x] | none => .internalError
-    else .ok items
+    if a.isAt then match updateItem x lo hi with | some (y, w) => .ok [a, y] w | none => .internalError
+    else if x.isAt then match updateItem a lo hi with | some (y, w) => .ok [y, x] w | none => .internalError
+    else .ok items false
   | [a, x, b] =>
-    if a.isAt && b.isAt then match updateItem x lo hi with | some y => .ok [a, y, b] | none => .internalError
-    else .ok items
+    if a.isAt && b.isAt then match updateItem x lo hi with | some (y, w) => .ok [a, y, b] w | none => .internalError
+    else .ok items false
   | a :: x :: y :: z :: rest =>
     -- len > 3
-    let middle := (x :: y :: z :: rest).dropLast
     match (x :: y :: z :: rest).getLast? with
     | some last =>
-      if a.isAt && last.isAt && middle.all (fun i => i.isLit || i.isRep) then .ok (handleAnchored v a middle last lo hi)
-      else .ok items
-    | none => .ok items
-  | [] => .ok items
+      if a.isAt && last.isAt && (x :: y :: z :: rest).dropLast.all (fun i => i.isLit || i.isRep) then
+        .ok (handleAnchored v a (x :: y :: z :: rest).dropLast last lo hi).1
+            (handleAnchored v a (x :: y :: z :: rest).dropLast last lo hi).2
+      else .ok items false
+    | none => .ok items false
+  | [] => .ok items false
 
 /-- `update_quantifier(pattern, min_length, max_length)` on the parse tree of a valid, non-empty pattern -/
 def updateQuantifier (v : Variant) (items : List (Item α)) (lo hi : Option Nat) : Res α :=
-  if (lo == none || lo == some 0) && hi == none then .ok items
+  if (lo == none || lo == some 0) && hi == none then .ok items false
   else handleParsed v items lo hi
 
 end SV.Model.C01Regex
